@@ -12,8 +12,11 @@ _STRENGTH = {"Relaxed": 0, "Acquire": 1, "Release": 1, "AcqRel": 2, "SeqCst": 3}
 def extract_params():
     sig, _, _ = harness("channel", "--signature")
     stale = []
-    c = dict(OrdDeqLoad="Relaxed", OrdEnqLoad="Relaxed", OrdDeqOk="Acquire", OrdDeqFail="Relaxed", OrdEnqOk="Release",
-             OrdEnqFail="Relaxed", SLOTS=5, BITS=3)
+    c = dict(SLOTS=5, BITS=3)
+    for site in ("SDeq", "SEnq", "RDeq", "REnq"):
+        c["Ord%sLoad" % site] = "Relaxed"
+        c["Ord%sOk" % site] = "Acquire" if site.endswith("Deq") else "Release"
+        c["Ord%sFail" % site] = "Relaxed"
     send, recv = sig["send"], sig["recv"]
     want_s = [("load", "empty"), ("cas_weak", "empty"), ("load", "full"), ("cas_weak", "full")]
     want_r = [("load", "full"), ("cas_weak", "full"), ("load", "empty"), ("cas_weak", "empty")]
@@ -22,19 +25,12 @@ def extract_params():
     if [(k, l) for k, l, _, _ in recv] != want_r:
         stale.append("recv(): unmodelled step shape %s" % [(k, l) for k, l, _, _ in recv])
     if not stale:
-        # dequeue = steps 0,1 of both; enqueue = steps 2,3 of both. send and recv call the same two
-        # functions, so their orderings must agree; if they do not, the model has no constant for
-        # that and is declared stale rather than guessing.
-        def same(a, b, what):
-            if a != b:
-                stale.append("%s differs between send and recv (%s vs %s)" % (what, a, b))
-            return a
-        c["OrdDeqLoad"] = same(send[0][2], recv[0][2], "ordering of dequeue's load")
-        c["OrdDeqOk"] = same(send[1][2], recv[1][2], "success ordering of dequeue's CAS")
-        c["OrdDeqFail"] = same(send[1][3], recv[1][3], "failure ordering of dequeue's CAS")
-        c["OrdEnqLoad"] = same(send[2][2], recv[2][2], "ordering of enqueue's load")
-        c["OrdEnqOk"] = same(send[3][2], recv[3][2], "success ordering of enqueue's CAS")
-        c["OrdEnqFail"] = same(send[3][3], recv[3][3], "failure ordering of enqueue's CAS")
+        # one set of orderings per call site: send = dequeue(empty), enqueue(full);
+        # recv = dequeue(full), enqueue(empty)
+        for site, steps, base in (("SDeq", send, 0), ("SEnq", send, 2), ("RDeq", recv, 0), ("REnq", recv, 2)):
+            c["Ord%sLoad" % site] = steps[base][2]
+            c["Ord%sOk" % site] = steps[base + 1][2]
+            c["Ord%sFail" % site] = steps[base + 1][3]
     words = sig["words"]
     e0 = words[0][0]
     # BITS: full word after two sends is idx1 + idx2 << BITS
@@ -238,11 +234,15 @@ def run_channel(chk, tier):
             if r.violation:
                 chk.model_violation(r, "channel.rs as extracted (%s)" % what, c,
                                     extra={"signature": sig})
-    for name, args, tconsts, spur in scenarios(tier):
+    todo = [(n, a, t, sp, False) for n, a, t, sp in scenarios(tier)]
+    # single-thread scenarios once more with the build that has release semantics
+    todo += [(n + "_rel", a, t, sp, True) for n, a, t, sp, _ in list(todo)
+             if int(a[a.index("--senders") + 1]) + int(a[a.index("--receivers") + 1]) == 1]
+    for name, args, tconsts, spur, rel in todo:
         out = os.path.join(WORK, "ch_%s_%s" % (chk.pid, name))
         fine_max = 300 if tier == "quick" else 3000
         stats, _, _ = harness("channel", *args, "--out", out, "--max", 300000,
-                              "--fine-max", fine_max, timeout=3000)
+                              "--fine-max", fine_max, timeout=3000, rel=rel)
         chk.evaluations += stats["schedules"]
         chk.distinct += stats["distinct_abs_traces"]
         if not stats["exhausted"]:
